@@ -146,19 +146,24 @@ class Check:
         used = set()
         lines: List[str] = []
         violations: List[Obligation] = []
+        folded = getattr(self.prog, 'folded', {})
+
+        def same_place(k, o) -> bool:
+            # (a finding recorded in a private helper that has since been folded into its only caller is found in that caller)
+            return k.get('rule') == o.rule and k.get('kind') == o.kind and (k.get('construct') == o.construct or folded.get(k.get('construct')) == o.construct)
         for o in self.obs:
             if o.ok:
                 continue
             hit = None
             for i, k in enumerate(mine):
-                if all(k.get(f) == getattr(o, f) for f in ('rule', 'construct', 'kind')) and k.get('expr', '') == o.expr:
+                if same_place(k, o) and k.get('expr', '') == o.expr:
                     hit = (i, k)
                     break
             if hit is None:
                 # the same construct after a behaviour-preserving restructuring (renamed local, inverted if, flattened
                 # try/else): same rule, function and kind, same callee, same handler context
                 for i, k in enumerate(mine):
-                    if all(k.get(f) == getattr(o, f) for f in ('rule', 'construct', 'kind')) and (
+                    if same_place(k, o) and (
                             reduced_key(k.get('expr', '')) == reduced_key(o.expr) or self._canon_reduced(o.func, k.get('expr', '')) == self._canon_reduced(o.func, o.expr)
                             or self._canon_reduced(o.func, self._role_neutral(k.get('expr', ''))) == self._canon_reduced(o.func, self._role_neutral(o.expr))):
                         hit = (i, k)
